@@ -134,6 +134,25 @@ func formatValue(builder *OutputBuilder, value any) error {
 	return nil
 }
 
+// quoteEscapedIdentifier renders an identifier. Cypher escaped symbolic names (`...`) reach the SQL model with their
+// back-ticks (user variables and aliases become output column names); they are written as a PostgreSQL quoted
+// identifier so that their content can never be read as SQL. Every other identifier is written unchanged.
+func quoteEscapedIdentifier(identifier pgsql.Identifier) (string, error) {
+	raw := identifier.String()
+
+	if len(raw) < 2 || raw[0] != '`' || raw[len(raw)-1] != '`' {
+		return raw, nil
+	}
+
+	name := strings.ReplaceAll(raw[1:len(raw)-1], "``", "`")
+
+	if len(name) == 0 {
+		return "", fmt.Errorf("zero-length identifier")
+	}
+
+	return `"` + strings.ReplaceAll(name, `"`, `""`) + `"`, nil
+}
+
 func formatLiteral(builder *OutputBuilder, literal pgsql.Literal) error {
 	if literal.Null {
 		builder.Write("null")
@@ -277,7 +296,11 @@ func formatNode(builder *OutputBuilder, rootExpr pgsql.SyntaxNode) error {
 			builder.Write(typedNextExpr.String())
 
 		case pgsql.Identifier:
-			builder.Write(typedNextExpr)
+			if quoted, err := quoteEscapedIdentifier(typedNextExpr); err != nil {
+				return err
+			} else {
+				builder.Write(quoted)
+			}
 
 		case pgsql.CompoundIdentifier:
 			for idx := len(typedNextExpr) - 1; idx >= 0; idx-- {
